@@ -1342,6 +1342,8 @@ class Interp:
             ca, cb = (concrete(a_) if isinstance(a_, (Node, int, Fraction)) and not isinstance(a_, bool) else None for a_ in args[:2])
             if ca is not None and cb is not None and ca == cb:
                 return True
+            if nm in ('array_equal', 'array_equiv'):
+                return False              # exact equality of values that are not identically equal: generic position
             return Opaque('tolerance test ' + nm)
         if nm == 'shape' and len(args) == 1:
             a_ = args[0]
